@@ -456,6 +456,9 @@ func runC04(c *Ctx) {
 	for i := 0; i < c.N/4000+2; i++ {
 		gcChurn(c, r, i)
 	}
+	for _, pre := range []string{"E", "-", "E,S,E"} {
+		udpOverlap(c, pre, 12)
+	}
 	concurrentUDP(c, r, 16, c.N/40+10)
 }
 
